@@ -82,6 +82,24 @@ def stream_smhash(ctx: Ctx, n: int):
         k = mg.kind(m)
         ctx.coverage["streams"][f"S-mhash-input:{k}"] = ctx.coverage["streams"].get(f"S-mhash-input:{k}", 0) + 1
         try:
+            # an object that differs from m only in its attached caches (lazily computed _specifier) compares and hashes like m
+            if k == "MarkerExpression":
+                from dep_logic.markers.single import MarkerExpression
+                fresh = MarkerExpression(m.name, m.op, m.value, m.reversed)
+                try:
+                    m.specifier
+                except Exception:  # noqa: BLE001
+                    pass
+                ctx.count("S-mhash-cache-twins", 1)
+                if not (fresh == m and m == fresh) or hash(fresh) != hash(m):
+                    ctx.finding(f"m-cache|{m.op}|{m}", "an atom with a filled specifier cache and a fresh one with the same fields differ in == or hash", {"x": str(m)}, "equal, same hash",
+                                [bool(fresh == m), hash(fresh), hash(m)])
+            elif k in ("MultiMarker", "MarkerUnion"):
+                fresh = type(m)(*m.markers)
+                ctx.count("S-mhash-cache-twins", 1)
+                if not (fresh == m and m == fresh) or hash(fresh) != hash(m):
+                    ctx.finding(f"m-cache|{k}|{m}", "a compound rebuilt from its children differs from the original in == or hash", {"x": str(m)}, "equal, same hash",
+                                [bool(fresh == m), hash(fresh), hash(m)])
             cases.append((hcase(m), f"hash: {desc} -> {str(m)!r}"))
             m2 = reorder(m, rng)
             if smark.cmarker(m2) != cm:
